@@ -262,6 +262,11 @@ func (e *Eng) actPARPush() {
 		e.label("par-push-without-redirect_uri")
 	}
 	pushedRedirect := form.Get("redirect_uri") != ""
+	// the push may fix the response mode (client A is registered for explicit modes; B's push is then refused)
+	pushedMode := rapid.SampledFrom([]string{"", "", "", "query", "fragment", "form_post"}).Draw(t, "pushedResponseMode")
+	if pushedMode != "" {
+		form.Set("response_mode", pushedMode)
+	}
 	verifier := ""
 	if rapid.Bool().Draw(t, "pushWithPKCE") {
 		verifier = "pushed-verifier-" + strings.Repeat("p", 40)
@@ -309,6 +314,10 @@ func (e *Eng) actPARPush() {
 	g.Redirect = redirectURI
 	g.Extra["state"] = state
 	g.Extra["verifier"] = verifier
+	g.Extra["mode"] = pushedMode
+	if pushedMode != "" {
+		e.label("par-push-with-response_mode")
+	}
 	if !pushedRedirect {
 		g.Extra["redirect-not-pushed"] = "1"
 	}
@@ -401,6 +410,16 @@ func (e *Eng) actPARUse() {
 		q.Set("nonce", "query-nonce-0123456789")
 		q.Set("code_challenge", h.PKCES256("query-verifier-"+strings.Repeat("q", 40)))
 		q.Set("code_challenge_method", "S256")
+		wantMode := g.Extra["mode"]
+		if wantMode == "" {
+			wantMode = "query"
+		}
+		for _, m := range []string{"fragment", "form_post", "query"} {
+			if m != wantMode {
+				q.Set("response_mode", m)
+				break
+			}
+		}
 		e.label("par-use-with-conflicting-query")
 	}
 	subject := fmt.Sprintf("user-%d", g.N)
@@ -455,8 +474,19 @@ func (e *Eng) actPARUse() {
 		if res.State != g.Extra["state"] {
 			e.viol("C17/pushed-value-overridden", "state: pushed %q, response carries %q", g.Extra["state"], res.State)
 		}
-		if !strings.HasPrefix(res.Location, redirectURI+"?") {
-			e.viol("C17/pushed-value-overridden", "redirect target: pushed %q, response went to %q", redirectURI, res.Location)
+		wantMode := g.Extra["mode"]
+		if wantMode == "" {
+			wantMode = "query" // the default of the code flow when the push named none
+		}
+		if res.Mode != wantMode {
+			e.viol("C17/pushed-value-overridden", "response mode: pushed %q (code flow default: query), response delivered as %q", g.Extra["mode"], res.Mode)
+		}
+		target := res.Location
+		if res.Mode == "form_post" {
+			target = res.FormURL
+		}
+		if target != redirectURI && !strings.HasPrefix(target, redirectURI+"?") && !strings.HasPrefix(target, redirectURI+"#") {
+			e.viol("C17/pushed-value-overridden", "redirect target: pushed %q, response went to %q", redirectURI, target)
 		}
 		if res.Code == "" || res.Access != "" {
 			e.viol("C17/pushed-value-overridden", "response_type: pushed code, response has code=%v access_token=%v", res.Code != "", res.Access != "")
